@@ -18,6 +18,7 @@ from __future__ import annotations
 import json
 import os
 import random
+import time
 
 from .. import common, tlc
 from ..drive import rrel as D
@@ -120,16 +121,11 @@ def random_expr(rng, size, fixed):
     return dict(paths=seq(size))
 
 
-def guided_case(rng, objs, max_nodes=6):
-    """A (expression, name, target class) triple that follows a random walk through the model
-    and is then perturbed (stars, brackets, extra alternatives), so that a fair share of the
-    cases resolves.  Pure generation heuristics; the expected outcome comes from TLC."""
-    n = len(objs)
-    start = rng.randint(1, n)
+def guided_walk(rng, objs, start, want=None):
+    """A path that follows a random walk through the model from `start` (or from the root);
+    with `want` the walk must consume exactly these names.  -> (elements, names, last object)"""
     els = []
-    cur = start
-    r = rng.random()
-    if r < 0.45:                                   # absolute: a leading navigation starts at the root
+    if rng.random() < 0.45:                        # absolute: a leading navigation starts at the root
         cur = 1
     else:                                          # relative
         up = []
@@ -147,14 +143,22 @@ def guided_case(rng, objs, max_nodes=6):
         else:
             els.append(dict(k="parent", type=objs[cur - 1]["cls"]))
     names = []
-    steps = rng.randint(1, 4)
+    steps = rng.randint(1, 4) if want is None else len(want) + rng.randint(0, 2)
     for _ in range(steps):
         cands = [(a, x) for a in ATTRS for x in objs[cur - 1]["attrs"][a]["els"]]
+        if want is not None and len(names) < len(want):
+            hit = [(a, x) for a, x in cands if objs[x - 1]["name"] == want[len(names)]]
+            if hit and rng.random() < 0.7:
+                a, x = rng.choice(hit)
+                els.append(dict(k="nav", attr=a, mode="consume", fixed="-"))
+                names.append(objs[x - 1]["name"])
+                cur = x
+                continue
         if not cands:
             break
         a, x = rng.choice(cands)
         m = rng.random()
-        if m < 0.55 and len(names) < 3:
+        if want is None and m < 0.55 and len(names) < 3:
             els.append(dict(k="nav", attr=a, mode="consume", fixed="-"))
             names.append(objs[x - 1]["name"])
         elif m < 0.85:
@@ -162,13 +166,33 @@ def guided_case(rng, objs, max_nodes=6):
         else:
             els.append(dict(k="nav", attr=a, mode="fixed", fixed=objs[x - 1]["name"]))
         cur = x
+    if want is not None:
+        return (els, names, cur) if names == want else None
     if not names:
         names = [rng.choice(model_alphabet(objs) or ["a"])]
         cands = [a for a in ATTRS if objs[cur - 1]["attrs"][a]["has"]]
         els.append(dict(k="nav", attr=rng.choice(cands or ATTRS), mode="consume", fixed="-"))
+    return els, names, cur
+
+
+def guided_case(rng, objs, max_nodes=6):
+    """A (expression, name, target class) triple that follows a random walk through the model
+    and is then perturbed (stars, brackets, extra alternatives -- often a second walk that
+    consumes the same name and ends elsewhere, so that precedence matters), so that a fair
+    share of the cases resolves.  Pure generation heuristics; the expected outcome comes from TLC."""
+    n = len(objs)
+    start = rng.randint(1, n)
+    els, names, cur = guided_walk(rng, objs, start)
     cls = objs[cur - 1]["cls"] if rng.random() < 0.8 else rng.choice(["Class", "Package"])
     if cls == "Model":
         cls = "Class"
+    second = None
+    if rng.random() < 0.4:
+        for _ in range(25):
+            w = guided_walk(rng, objs, start, want=names)
+            if w and w[2] != cur and objs[w[2] - 1]["cls"] == objs[cur - 1]["cls"]:
+                second = w[0]
+                break
     # perturbations
     out = []
     i = 0
@@ -201,6 +225,9 @@ def guided_case(rng, objs, max_nodes=6):
     paths = [dict(els=pre + out)] if (pre or out) else [dict(els=[dict(k="up")])]
     if not paths[0]["els"] or (paths[0]["els"][0]["k"] in ("dots", "up") and False):
         paths = [dict(els=[dict(k="up")])]
+    if second:
+        paths.insert(rng.randint(0, 1), dict(els=second))
+        return dict(paths=paths), names, cls
     q = rng.random()
     if q < 0.25:
         paths.insert(0, random_expr(rng, rng.randint(1, 3), model_alphabet(objs)[:2] or ["a"])["paths"][0])
@@ -426,6 +453,7 @@ def run_batch(rep, real, judge, ctxs, ways_for, label):
         c["id"] = n
         cases.append(dict(id=n, objs=c["objs"], expr=c["expr"], names=c["names"],
                           cls=c["cls"], starts=list(range(1, len(c["objs"]) + 1))))
+    t0, c0 = time.time(), time.process_time()
     with ThreadPoolExecutor(max_workers=1) as ex:
         fut = ex.submit(tlc_reach, rep, cases, label)
         observed = []
@@ -442,10 +470,14 @@ def run_batch(rep, real, judge, ctxs, ways_for, label):
                         else:
                             obs = real.load(way, c["objs"], start, c["names"], c["cls"], c["expr"], flags)
                         observed.append((c, start, way, flags, obs))
+        t1 = time.time()
         answers = fut.result()
+    t2 = time.time()
     for c, start, way, flags, obs in observed:
         judge.observe(c, start, way, flags, obs, answers[c["id"]][start])
     judge.flush(label + "/paths")
+    rep.extra["phase_wall_s"] = dict(real_code=round(t1 - t0, 1), real_code_cpu=round(time.process_time() - c0, 1),
+                                     waiting_for_oracle=round(t2 - t1, 1), judging_and_paths=round(time.time() - t2, 1))
     return len(observed)
 
 
@@ -463,6 +495,9 @@ def _witness_ctxs(findings):
 
 
 def _mc(rep, quick):
+    if os.environ.get("VT_SKIP_MC"):          # harness debugging only; recorded in the evidence
+        rep.note("VT_SKIP_MC set: (M) skipped")
+        return
     invs = ["Terminates", "FixpointWithinBound", "Monotone", "UpIsDotsStar", "ExpansionsIncluded",
             "DevOnlyRemoves", "ProxyEndsInTarget"]
     cfgs = ["MC_Rrel.cfg"] if quick else ["MC_Rrel_Wide.cfg", "MC_Rrel_Thorough.cfg"]
@@ -516,7 +551,8 @@ def _contexts(rep, rng, quick):
                 else:
                     _, names, _ = guided_case(rng, objs)
                 cls = rng.choice(["Class", "Class", "Package", "OBJECT"])
-                ctxs.append(dict(model=mk, objs=objs, expr=e, names=names, cls=cls, flags=["", "p"], src="enum"))
+                flags = ["", "p"] if n < 3 else [["", "p"][n_enum % 2]]
+                ctxs.append(dict(model=mk, objs=objs, expr=e, names=names, cls=cls, flags=flags, src="enum"))
     rep.bounds["enumerated_asts"] = dict(max_nodes=bound, count=n_enum)
     # the small universe exhaustively for a few expressions: every name of <= 3 parts
     shapes = [E.exprs(2)[i] for i in sorted(rng.sample(range(len(E.exprs(2))), 6 if quick else 60))]
@@ -572,7 +608,7 @@ def run(rep):
     real = D.Real()
     judge = Judge(rep, findings)
     ctxs = _witness_ctxs(findings) + _contexts(rep, rng, quick)
-    every = 4 if quick else 2
+    every = 4 if quick else 12
 
     def ways_for(c, start, flags):
         if c.get("witness"):
